@@ -13,7 +13,7 @@ import (
 func init() {
 	register(&propInfo{
 		ID:          "C15",
-		Explanation: "Origin, must-call and site analysis of what happens to server-side work when a connection ends: (R15.1) the context handed to every handler derives, through cancellation-preserving steps only, from the per-connection context whose cancel function is deferred in the connection loop; every loop exit also runs the in-flight failer, which invokes the cancel function of every entry of the handling table; (R15.2) every function that can serve as a writer provider invokes its callback on every path (a response written for a dead connection must not park its handler goroutine); (R15.3) the forwarding goroutine's select set contains the exit signal and returns on it, and the channel registrar's hand-over is a select alternative to the exit signal; (R15.4) channels on which helper goroutines report back to the loop have room for a report that arrives after the loop has exited; (R15.5) the loop's deferred cleanup cannot block (the ping stopper does not wait for anything), so the cancellations are actually reached; (R15.6) exit cleanup is registered before every return of the loop. R15.3 also decides, under the situation 'exit case chosen with ok=false' (comparisons of the chosen index with constants decided, short-circuit phis evaluated over feasible edges), that the forwarder returns before its next select. R15.3 also: no goroutine is started on the forwarder's exit path; R15.5 also: no deferred call of the loop waits on a WaitGroup.",
+		Explanation: "Origin, must-call and site analysis of what happens to server-side work when a connection ends: (R15.1) the context handed to every handler derives, through cancellation-preserving steps only, from the per-connection context whose cancel function is deferred in the connection loop; every loop exit also runs the in-flight failer, which invokes the cancel function of every entry of the handling table; (R15.2) every function that can serve as a writer provider invokes its callback on every path (a response written for a dead connection must not park its handler goroutine); (R15.3) the forwarding goroutine's select set contains the exit signal and returns on it, and the channel registrar's hand-over is a select alternative to the exit signal; (R15.4) channels on which helper goroutines report back to the loop have room for a report that arrives after the loop has exited; (R15.5) the loop's deferred cleanup cannot block (the ping stopper does not wait for anything), so the cancellations are actually reached; (R15.6) exit cleanup is registered before every return of the loop. R15.3 also decides, under the situation 'exit case chosen with ok=false' (comparisons of the chosen index with constants decided, short-circuit phis evaluated over feasible edges), that the forwarder returns before its next select. R15.3 also: no goroutine is started on the forwarder's exit path; R15.5 also: no deferred call of the loop waits on a WaitGroup. (R15.9) once a message was taken from the socket reader every path restarts the reader, signals loss or redials. (R15.10) no blocking read lies in the connection loop's synchronous cone.",
 		NotDecided:  "Goroutine counts at run time, handlers that ignore their context, a socket reader parked on its bare hand-over when the loop exits at the instant a frame header arrives (observation recorded in DESIGN.md).",
 		Assumptions: []string{"writer providers are the functions that flow into a parameter of type func(func(io.Writer)) of the dispatcher / lazy-writer helper"},
 		Run:         runC15,
@@ -290,6 +290,8 @@ func runC15(c *Ctx) {
 	// ---- R15.8: the context-cancelled arm must not wait for anything
 	c.rule("R15.9", "the connection keeps being read until it ends (so that the peer's close, FIN or RST is seen and handlers are cancelled): once a message was taken from the socket reader, every path restarts the reader, signals loss or redials")
 	c.readCycleRule("R15.9")
+	c.rule("R15.10", "the connection loop never reads from the socket itself (message bodies are read on a goroutine of their own): a peer stalling in the middle of a message cannot keep the loop from seeing its context, the stop signal or the timeout")
+	c.loopNeverReadsSocket("R15.10")
 	c.rule("R15.8", "the loop's context-cancelled arm returns without taking a lock, writing to the socket or sending on a channel")
 	if arm, ok := w.Arms["ctx"]; !ok || arm.Body == nil {
 		c.und("R15.8", "context arm of the connection loop", "-", "not recovered")
@@ -533,4 +535,36 @@ func (c *Ctx) forwarderExitArm(rule string, fwd *ssa.Function) {
 	c.check(!again, rule, construct, c.ipos(sel), "on the closed exit signal every path returns before the next select",
 		"after the exit signal fired (channel closed) the forwarding goroutine can go back to its select: it then lives until every handler has closed its channel — a streaming handler that just returns on cancellation keeps the goroutine and the whole connection object alive for ever")
 	_ = n
+}
+
+// loopNeverReadsSocket: R15.10. No blocking read (io.ReadAll, ReadFrom, io.Copy, a Read through the
+// io.Reader interface, gorilla's NextReader/ReadMessage/ReadJSON) is reachable from the connection loop
+// through synchronous calls.
+func (c *Ctx) loopNeverReadsSocket(rule string) {
+	p, r := c.P, c.R
+	if r.FnLoop == nil {
+		c.und(rule, "connection loop", "-", "not resolved")
+		return
+	}
+	construct := fmt.Sprintf("%s: no socket read on the loop's own goroutine", fname(r.FnLoop))
+	var bad ssa.Instruction
+	p.coneInstrs(r.FnLoop, func(in ssa.Instruction) {
+		ci, ok := in.(*ssa.Call)
+		if !ok {
+			return
+		}
+		switch calleeName(ci) {
+		case "io.ReadAll", "io/ioutil.ReadAll", "(*bytes.Buffer).ReadFrom", "io.Copy", "io.CopyN", "io.ReadFull", "io.ReadAtLeast",
+			"(*github.com/gorilla/websocket.Conn).NextReader", "(*github.com/gorilla/websocket.Conn).ReadMessage", "(*github.com/gorilla/websocket.Conn).ReadJSON":
+			bad = in
+		}
+		if cm := ci.Common(); cm.IsInvoke() && cm.Method.Name() == "Read" && isNamed(cm.Value.Type(), "io", "Reader") {
+			bad = in
+		}
+	})
+	if bad != nil {
+		c.bad(rule, construct, c.ipos(bad), "the connection loop reads a message body itself: while a peer stalls in the middle of a message the loop sits in that read and looks at neither its context nor the stop signal nor the timeout — the connection, its goroutines and its handlers' cleanup are retained")
+	} else {
+		c.ok(rule, construct, p.pos(r.FnLoop.Pos()), "no blocking read in the loop's synchronous cone")
+	}
 }
